@@ -111,7 +111,7 @@ fn run(tier: Tier, seed: u64, workers: usize) -> COut {
     corpus.sort_by_key(|it| it.bytes.len());
     let per_d2 = match tier {
         Tier::Quick => 8usize,
-        Tier::Thorough => 24,
+        Tier::Thorough => 64,
     };
     let n = corpus.len();
     let workers = workers.min(8);
